@@ -1,6 +1,8 @@
 """Shared scenario pieces for the executor-level harnesses (C04, C05, C10): flag sets per role,
 harness-side plugins (a web route, a reverse-proxy route table), canned upstream responses."""
 from proxy.common.flag import FlagParser
+from proxy.http.exception import HttpRequestRejected
+from proxy.http.proxy import HttpProxyBasePlugin
 from proxy.http.responses import okResponse
 from proxy.http.server import HttpWebServerBasePlugin, ReverseProxyBasePlugin, httpProtocolTypes
 
@@ -26,6 +28,34 @@ class ByeRoute(HttpWebServerBasePlugin):
             self.client.queue(okResponse(b'bye:' + (request.path or b''), headers={b'X-Route': b'bye'}))
 
 
+class WsRoute(HttpWebServerBasePlugin):
+    """Websocket route /ws: answers every message with a short text frame."""
+
+    def routes(self):
+        return [(httpProtocolTypes.WEBSOCKET, r'/ws$')]
+
+    def handle_request(self, request):
+        pass
+
+    def on_websocket_message(self, frame):
+        self.client.queue(memoryview(b'\x81\x02ok'))
+
+
+WS_HANDSHAKE = (b'GET /ws HTTP/1.1\r\nHost: x\r\nUpgrade: websocket\r\nConnection: Upgrade\r\n'
+                b'Sec-WebSocket-Key: dGhlIHNhbXBsZSBub25jZQ==\r\nSec-WebSocket-Version: 13\r\n\r\n')
+DENY = [False]      # set by the harness: the next request(s) reaching RejectAfterConnect are rejected
+
+
+class RejectAfterConnect(HttpProxyBasePlugin):
+    """Proxy plugin rejecting every request while scen.DENY[0] is set, from handle_client_request, i.e. AFTER the core connected
+    upstream (what the shipped FilterByURLRegexPlugin does)."""
+
+    def handle_client_request(self, request):
+        if DENY[0]:
+            raise HttpRequestRejected(status_code=403, reason=b'Denied', body=b'denied')
+        return request
+
+
 class Routes(ReverseProxyBasePlugin):
     """Reverse-proxy routes: /get -> up1.example:80/get ; /api/.* -> up2.example:8080/v1 ; /both -> either upstream ; /lit -> literal response."""
 
@@ -44,7 +74,9 @@ class Routes(ReverseProxyBasePlugin):
 
 FLAGS = {
     'forward': FlagParser.initialize(['--threadless']),
+    'forward_reject': FlagParser.initialize(['--threadless'], plugins=[RejectAfterConnect]),
     'web': FlagParser.initialize(['--threadless', '--enable-web-server', '--disable-http-proxy'], plugins=[HelloRoute]),
+    'webws': FlagParser.initialize(['--threadless', '--enable-web-server', '--disable-http-proxy'], plugins=[HelloRoute, WsRoute]),
     'web2': FlagParser.initialize(['--threadless', '--enable-web-server', '--disable-http-proxy'], plugins=[HelloRoute, ByeRoute]),
     'reverse': FlagParser.initialize(['--threadless', '--enable-reverse-proxy', '--disable-http-proxy'], plugins=[Routes]),
     'all': FlagParser.initialize(['--threadless', '--enable-web-server', '--enable-reverse-proxy'], plugins=[HelloRoute, Routes]),
